@@ -26,6 +26,7 @@ def instantiate(name, hist, rnd, k):
             n = (k % 3) * Bb + (k % 7)
             r.update(H.content(rnd, n, 0), bitlen=8 * n + 1 + (k % 9), padding=True)
         elif op == 'reset':
+            if salt and (k + j) % 2: salt = 0              # a salted epoch followed by a plain re-initialisation: the old salt is gone
             (r.init(salt) if salt else r.init()); fed = 0; flag = False
         # 'remove' has no counterpart on a hash object
     return r.trace(dict(kind='history', calls=[(c['op'], c['k'], c['rc']) for c in hist]))
